@@ -147,9 +147,51 @@ def coherent(t, m, report):
         report('accessor:' + bad[0], bad[1])
 
 
-def spec(depth, ops=None):
+def _mutate_inplace(x):
+    for ax in ('observation', 'sample'):
+        ids = list(x.ids(ax))
+        if ids:
+            try:
+                x.filter([ids[0]], axis=ax, invert=True, inplace=True)
+            except Exception:
+                pass
+    for ax in ('observation', 'sample'):
+        ids = list(x.ids(ax))
+        if ids:
+            try:
+                x.update_ids({i: str(i) + '_z' for i in ids}, axis=ax, inplace=True)
+                x.add_metadata({str(ids[0]) + '_z': {'zz': 1}}, ax)
+            except Exception:
+                pass
+    try:
+        x.remove_empty(inplace=True)
+    except Exception:
+        pass
+
+
+def two_tables(tr, report):
+    """histories over two live tables: after an operation that returns a new table, in-place operations on
+    the derived table must leave the original coherent, and vice versa"""
+    if tr.raised or tr.inplace is not False or tr.res is None:
+        return
+    for direction in ('derived-mutated', 'original-mutated'):
+        t2, m2 = tr.rebuild()
+        try:
+            r2 = OPS.apply(tr.op, t2, m2, False).t
+        except Exception:
+            return
+        if r2 is None or r2 is t2:
+            return
+        victim, mutated = (t2, r2) if direction == 'derived-mutated' else (r2, t2)
+        _mutate_inplace(mutated)
+        coherent(victim, None, lambda sig, detail: report('two-tables:' + sig, '%s after %s: %s'
+                                                           % (direction, E.opname(tr.op), detail)))
+
+
+def spec(depth, ops=None, two=True):
     return E.Spec(OPS.start_tables(), ops if ops is not None else OPS.all_ops(), depth,
-                  check_ops=(), on_state=coherent, label='d%d' % depth)
+                  check_ops=(), on_state=coherent, on_transition=two_tables if two else None,
+                  label='d%d' % depth)
 
 
 def inplace_ops():
